@@ -1,2 +1,5 @@
 import TransportVerif.Props.C04
-#print axioms TV.Props.C04.placeholder
+#print axioms TV.Props.C04.judged04
+#print axioms TV.Props.C04.plain_never_twice
+#print axioms TV.Props.C04.never_above_max
+#print axioms TV.Props.C04.never_panics
